@@ -25,8 +25,10 @@ import (
 	"math/big"
 	"net"
 	"os"
+	"reflect"
 	"strings"
 	"sync"
+	"sync/atomic"
 	"testing"
 	"time"
 
@@ -72,21 +74,80 @@ func vPipeListen(_ context.Context, _ string, addr string, _ net.ListenConfig) (
 	return l, nil
 }
 
+// the server's end of a connection carries an id, so that the harness modules can tell the
+// connections of one provisioned config apart (recorders are kept per connection)
+type vIDConn struct {
+	net.Conn
+	id string
+}
+
+var vConnSeq int64
+
+// vConnID walks down the wrappers (layer4.Connection, proxyprotocol.Conn, tls.Conn, throttledConn,
+// the tee's conns, ...) to the connection the listener accepted
+func vConnID(c net.Conn) string {
+	for depth := 0; depth < 64 && c != nil; depth++ {
+		switch v := c.(type) {
+		case *vIDConn:
+			return v.id
+		case *layer4.Connection:
+			c = v.Conn
+			continue
+		case *tls.Conn:
+			c = v.NetConn()
+			continue
+		}
+		rv := reflect.ValueOf(c)
+		for rv.Kind() == reflect.Ptr || rv.Kind() == reflect.Interface {
+			if rv.IsNil() {
+				return ""
+			}
+			rv = rv.Elem()
+		}
+		if rv.Kind() != reflect.Struct {
+			return ""
+		}
+		f := rv.FieldByName("Conn")
+		if !f.IsValid() || !f.CanInterface() {
+			return ""
+		}
+		nc, ok := f.Interface().(net.Conn)
+		if !ok {
+			return ""
+		}
+		c = nc
+	}
+	return ""
+}
+
+func vRecKey(sid string, c net.Conn) string {
+	if id := vConnID(c); id != "" {
+		return sid + "#" + id
+	}
+	return sid
+}
+
 func vPipeDial(addr string) (net.Conn, error) {
+	c, _, err := vPipeDialID(addr)
+	return c, err
+}
+
+func vPipeDialID(addr string) (net.Conn, string, error) {
 	vPipeMu.Lock()
 	l := vPipeLns[addr]
 	vPipeMu.Unlock()
 	if l == nil {
-		return nil, fmt.Errorf("no listener %s", addr)
+		return nil, "", fmt.Errorf("no listener %s", addr)
 	}
 	c1, c2 := net.Pipe()
+	id := fmt.Sprintf("c%d", atomic.AddInt64(&vConnSeq, 1))
 	select {
-	case l.ch <- c2:
-		return c1, nil
+	case l.ch <- &vIDConn{Conn: c2, id: id}:
+		return c1, id, nil
 	case <-l.done:
-		return nil, net.ErrClosed
+		return nil, "", net.ErrClosed
 	case <-time.After(5 * time.Second):
-		return nil, fmt.Errorf("accept timeout on %s", addr)
+		return nil, "", fmt.Errorf("accept timeout on %s", addr)
 	}
 }
 
@@ -143,15 +204,15 @@ func (m *vNeed) Match(cx *layer4.Connection) (bool, error) {
 		n, err := io.ReadFull(cx, buf)
 		seen = buf[:n]
 		if err != nil {
-			m.check(seen)
+			m.check(cx, seen)
 			return false, err
 		}
 	}
-	m.check(seen)
+	m.check(cx, seen)
 	return m.Yes, nil
 }
 
-func (m *vNeed) check(seen []byte) {
+func (m *vNeed) check(cx *layer4.Connection, seen []byte) {
 	vScMu.Lock()
 	sc := vScs[m.Sid]
 	vScMu.Unlock()
@@ -167,7 +228,7 @@ func (m *vNeed) check(seen []byte) {
 		}
 	}
 	if !ok {
-		r := vRecOf(m.Sid)
+		r := vRecOf(vRecKey(m.Sid, cx))
 		r.mu.Lock()
 		r.view = append(r.view, fmt.Sprintf("matcher at raw position %d (k=%d) saw %d bytes that are not the stream at that position", m.Pos, m.K, len(seen)))
 		r.mu.Unlock()
@@ -188,7 +249,7 @@ func (*vRec) CaddyModule() caddy.ModuleInfo {
 }
 
 func (h *vRec) Handle(cx *layer4.Connection, next layer4.Handler) error {
-	r := vRecOf(h.Sid)
+	r := vRecOf(vRecKey(h.Sid, cx))
 	r.mu.Lock()
 	r.ran[h.Id]++
 	r.mu.Unlock()
@@ -288,9 +349,11 @@ type vScenario struct {
 	echoPos int
 	desc    string
 	decoys  []string
-	bounds  []int // raw positions of the handler boundaries
-	nots    int   // matcher sets that contain a `not` next to a reading matcher
-	tls     bool  // the whole chain runs behind the real tls handler; the client speaks TLS
+	bounds  []int  // raw positions of the handler boundaries
+	nots    int    // matcher sets that contain a `not` next to a reading matcher
+	connNo  int    // which connection of its provisioned config this is
+	rk      string // recording key of this connection (sid#connection id); empty: sid
+	tls     bool   // the whole chain runs behind the real tls handler; the client speaks TLS
 	tls12   bool
 }
 
@@ -298,6 +361,13 @@ var (
 	vScMu sync.Mutex
 	vScs  = map[string]*vScenario{}
 )
+
+func (sc *vScenario) rec() *vRecording {
+	if sc.rk != "" {
+		return vRecOf(sc.rk)
+	}
+	return vRecOf(sc.sid)
+}
 
 func vStream(seed, n int) []byte {
 	b := make([]byte, n)
@@ -332,7 +402,7 @@ func vGenScenario(rng *vRng, idx int, port int) *vScenario {
 	sc := &vScenario{sid: fmt.Sprintf("sc%d", idx), port: port}
 	// chain shape
 	nel := rng.Intn(5)
-	kinds := []string{"pp", "throttle", "tee", "consume", "subroute", "break", "pp", "tee"}
+	kinds := []string{"pp", "throttle", "tee", "consume", "subroute", "break", "pp", "tee", "subfall"}
 	nsub := 0
 	for i := 0; i < nel; i++ {
 		k := kinds[rng.Intn(len(kinds))]
@@ -438,7 +508,7 @@ func vGenScenario(rng *vRng, idx int, port int) *vScenario {
 			bump("proxy_protocol")
 		case "throttle":
 			bump("throttle")
-		case "subroute":
+		case "subroute", "subfall":
 			bump("subroute")
 		}
 	}
@@ -545,6 +615,25 @@ func vGenScenario(rng *vRng, idx int, port int) *vScenario {
 			case "subroute":
 				hs = append(hs, map[string]any{"handler": "subroute", "routes": build(j+1, 0)})
 				terminalDone = true
+			case "subfall":
+				// a subroute that does not terminate the connection (one route answers no, an optional
+				// one matches with a non-terminal handler): the enclosing list goes on with further routes
+				id := fmt.Sprintf("decoy%d", len(sc.decoys))
+				sc.decoys = append(sc.decoys, id)
+				p0, i0 := at(j)
+				inner := []any{map[string]any{
+					"match":  []any{matcherK(p0, needK(p0, i0), false)},
+					"handle": []any{map[string]any{"handler": "verif_rec", "sid": sc.sid, "id": id, "terminal": true}},
+				}}
+				if rng.Bool() {
+					inner = append(inner, map[string]any{"handle": []any{map[string]any{"handler": "throttle", "read_bytes_per_second": 1e12, "read_burst_size": 1 << 24}}})
+				}
+				hs = append(hs, map[string]any{"handler": "subroute", "routes": inner})
+				np, ni := at(j + 1)
+				if curK > limK(np, ni) {
+					continue
+				}
+				return append(append(routes, closeRoute()), build(j+1, curK)...)
 			case "break":
 				np, ni := at(j + 1)
 				if len(hs) == 0 || curK > limK(np, ni) {
@@ -620,10 +709,11 @@ func vClassify(got, want []byte) string {
 
 // run one scenario against the running servers; returns the echoed bytes
 func vRunClient(sc *vScenario) (echoed []byte, cerr error) {
-	c, err := vPipeDial(fmt.Sprintf("s:%d", sc.port))
+	c, id, err := vPipeDialID(fmt.Sprintf("s:%d", sc.port))
 	if err != nil {
 		return nil, err
 	}
+	sc.rk = sc.sid + "#" + id
 	defer c.Close()
 	_ = c.SetWriteDeadline(time.Now().Add(8 * time.Second))
 	pipe := c
@@ -686,7 +776,7 @@ func vRunClient(sc *vScenario) (echoed []byte, cerr error) {
 	}
 	// close only when every recorder has received what it is expected to receive (net.Pipe has no
 	// half-close and refuses SetReadDeadline once closed, which the router calls after matching)
-	r := vRecOf(sc.sid)
+	r := sc.rec()
 	for t0 := time.Now(); cerr == nil && time.Since(t0) < 4*time.Second; {
 		r.mu.Lock()
 		all := true
@@ -789,22 +879,40 @@ func TestVerifC01E2E(t *testing.T) {
 			echoed []byte
 			err    error
 		}
-		results := make([]result, len(scs))
-		var wg sync.WaitGroup
-		for i, sc := range scs {
-			wg.Add(1)
-			go func(i int, sc *vScenario) {
-				defer wg.Done()
-				e, err := vRunClient(sc)
-				results[i] = result{e, err}
-			}(i, sc)
+		// every provisioned config serves three connections: one alone, then two overlapping
+		// (handlers must not keep anything of an earlier connection)
+		var runs []*vScenario
+		for _, sc := range scs {
+			for k := 0; k < 3; k++ {
+				cp := *sc
+				cp.connNo = k
+				runs = append(runs, &cp)
+			}
 		}
-		wg.Wait()
+		results := make([]result, len(runs))
+		runPhase := func(sel func(k int) bool) {
+			var wg sync.WaitGroup
+			for i, rc := range runs {
+				if !sel(rc.connNo) {
+					continue
+				}
+				wg.Add(1)
+				go func(i int, rc *vScenario) {
+					defer wg.Done()
+					e, err := vRunClient(rc)
+					results[i] = result{e, err}
+				}(i, rc)
+			}
+			wg.Wait()
+		}
+		runPhase(func(k int) bool { return k == 0 })
+		runPhase(func(k int) bool { return k > 0 })
+		scs = runs
 		// wait for the recorders (the branch of a tee finishes after the main chain)
 		t1 := time.Now()
 		deadline := time.Now().Add(5 * time.Second)
 		for _, sc := range scs {
-			r := vRecOf(sc.sid)
+			r := sc.rec()
 			for {
 				r.mu.Lock()
 				all := true
@@ -827,9 +935,9 @@ func TestVerifC01E2E(t *testing.T) {
 			out.Stat(fmt.Sprintf("batch%d_recorder_wait_ms", start/batch), w)
 		}
 		for i, sc := range scs {
-			r := vRecOf(sc.sid)
+			r := sc.rec()
 			r.mu.Lock()
-			in := map[string]any{"scenario": sc.sid, "desc": sc.desc, "seed": vSeed()}
+			in := map[string]any{"scenario": sc.sid, "desc": sc.desc, "seed": vSeed(), "connection": sc.connNo}
 			rj, _ := json.Marshal(sc.routes)
 			in["routes"] = string(rj)
 			failed := false
@@ -897,7 +1005,7 @@ func TestVerifC01E2E(t *testing.T) {
 			}
 			classes[cls]++
 			nt := len(sc.elems) > 0 && len(sc.raw) > 0
-			out.Case(fmt.Sprintf("CE2E %d %d", i+start, len(sc.raw)), cls, nt, map[string]any{"desc": sc.desc, "failed": failed})
+			out.Case(fmt.Sprintf("CE2E %d %d", (i+3*start)*10+sc.connNo, len(sc.raw)), cls, nt, map[string]any{"desc": sc.desc, "failed": failed})
 		}
 	}
 	_ = caddy.Stop()
